@@ -276,6 +276,10 @@ func (l *log) Get(offset int64) (message.Message, error) {
 	if err == index.ErrOffsetAfterEnd && segmentIndex < len(l.readers)-1 {
 		return msg, index.ErrOffsetNotFound
 	}
+	if err == index.ErrOffsetIndexEmpty && offset == OffsetNewest && segmentIndex > 0 {
+		// the head segment is empty, the newest message is in the previous one
+		return l.readers[segmentIndex-1].Get(offset)
+	}
 	return msg, err
 }
 
